@@ -74,9 +74,26 @@ class PatTable:
                     live[q] = True
                     changed = True
         self.live = live
-        # more[q]: a match can be reached from q by consuming at least one further *byte*
-        # (used for partial lexing: can more input still change the outcome?)
-        self.more = [any(live[x] for x in self.trans[q]) for q in range(self.n)]
+        # r1[x]: a match state is reachable from x in >= 1 transitions (bytes or EOI).  Matches are signalled one symbol
+        # late, so "r1[trans[q][c]]" means: a match ending at or after the byte c exists.
+        r1 = [False] * self.n
+        changed = True
+        while changed:
+            changed = False
+            for x in range(self.n):
+                if r1[x]:
+                    continue
+                nxt = list(self.trans[x]) + [self.eoi[x]]
+                if any(self.is_match[y] or r1[y] for y in nxt):
+                    r1[x] = True
+                    changed = True
+        # more[q]: the pattern can still match text that extends what was read by at least one further byte
+        # (partial lexing: more input could change the outcome)
+        self.more = [any(r1[x] for x in self.trans[q]) for q in range(self.n)]
+        # uncertain[q]: what follows can still change this pattern's contribution: it can grow (more), or whether it
+        # matches right here depends on the next symbol (look-ahead: `$`, `\b`)
+        self.uncertain = [self.more[q] or any(self.is_match[x] != self.is_match[self.eoi[q]] for x in self.trans[q])
+                          for q in range(self.n)]
 
     # ---- concrete evaluation
     def run(self, data, t, j):
@@ -222,6 +239,19 @@ class Reference:
                 if sq is not False and p.more[q]:
                     parts.append(sq)
         return s_and(simp(self.ex.len == bvv(j, U)), s_or(*parts))
+
+    def undetermined(self, t, back=0):
+        """the prefix (all of the input, or all but its last `back` bytes) does not determine the item starting at t:
+        some pattern can still grow, or its match at the end depends on the next symbol"""
+        alts = []
+        for j in range(t, self.N + 1 - back):
+            parts = []
+            for pi, p in enumerate(self.pats):
+                for q, sq in enumerate(self.S(pi, t, j - t)):
+                    if sq is not False and p.uncertain[q]:
+                        parts.append(sq)
+            alts.append(s_and(simp(self.ex.len == bvv(j + back, U)), s_or(*parts)))
+        return s_or(*alts)
 
     def winner_in(self, t, e, idxs):
         """some pattern of the index set is a highest-priority pattern among those matching bytes[t..e]"""
